@@ -418,6 +418,11 @@ def install_ns(mon):
             mon.count("ns.checkpoints")
             if rec["mid"]:
                 mon.count("ns.checkpoints_mid_iteration")
+                if mon.job.get("kill_after_mid_checkpoint"):
+                    # fault schedule "die at the first likelihood call after
+                    # a checkpoint written in the middle of an iteration"
+                    mon.model.kill_after = mon.model.points + 1
+                    mon.model.kill_hook = mon.flush
         return orig_dump(obj, filename, *a, **k)
 
     base.safe_file_dump = dump
@@ -1403,3 +1408,196 @@ def install_draws(mon):
 
 
 INSTALLERS["draws"] = install_draws
+
+
+# --------------------------------------------------------------------------
+# Monitor "pool": structural invariants of every proposal pool (C09 part A)
+def install_pool(mon):
+    from nessai.proposal.analytic import AnalyticProposal
+    from nessai.proposal.rejection import RejectionProposal
+    from nessai.proposal.flowproposal import FlowProposal
+    from nessai.proposal.importance import ImportanceFlowProposal
+
+    model = mon.model
+    STOCHASTIC = ("inversion", "angle", "cartesian", "split", "duplicate")
+
+    def check_rows(samples, name, check_logl=True):
+        V = mon.violation
+        n = int(samples.size)
+        mon.count("pool.rows", n)
+        if n == 0:
+            return
+        if not np.all(model.in_bounds(samples)):
+            V(f"pool-point-out-of-bounds:{name}",
+              f"{int((~model.in_bounds(samples)).sum())} of {n}")
+        with model.quiet():
+            lp = np.asarray(model.log_prior(samples), dtype=float)
+            ll = np.asarray(model._log_l(samples), dtype=float)
+        if not np.all(np.isfinite(samples["logP"])):
+            V(f"pool-point-logP-not-finite:{name}", "")
+        if not np.array_equal(np.asarray(samples["logP"], float), lp):
+            V(f"pool-logP!=model:{name}",
+              f"{int((np.asarray(samples['logP'], float) != lp).sum())} "
+              f"of {n}")
+        if check_logl and not np.array_equal(
+                np.asarray(samples["logL"], float), ll):
+            V(f"pool-logL!=model:{name}",
+              f"{int((np.asarray(samples['logL'], float) != ll).sum())} "
+              f"of {n}")
+
+    def check_indices(self, name):
+        idx = list(self.indices)
+        if sorted(idx) != list(range(int(self.samples.size))):
+            mon.violation(f"pool-indices-not-a-permutation:{name}",
+                          f"{len(idx)} indices for {self.samples.size} rows")
+
+    # --- uninformed proposals
+    def before_uninf(self, N=None):
+        return self.poolsize if N is None else N
+
+    def after_uninf(self, N, _):
+        name = type(self).__name__
+        mon.count("pool.populations")
+        mon.classes.add("pool:" + name)
+        check_rows(self.samples, name)
+        check_indices(self, name)
+        if type(self) is AnalyticProposal:
+            if self.samples.size != N:
+                mon.violation(f"pool-size!=requested:{name}",
+                              f"{self.samples.size} vs {N}")
+        elif self.samples.size > N:
+            mon.violation(f"pool-size>requested:{name}",
+                          f"{self.samples.size} vs {N}")
+
+    wrap(AnalyticProposal, "populate", before_uninf, after_uninf)
+    wrap(RejectionProposal, "populate", before_uninf, after_uninf)
+
+    # --- flow proposals (subclasses inherit populate)
+    def before_flow(self, worst_point, N=10000, **k):
+        return N
+
+    def after_flow(self, N, _):
+        name = type(self).__name__
+        V = mon.violation
+        mon.count("pool.populations")
+        mon.count("pool.flow_populations")
+        mon.classes.add("pool:" + name)
+        mon.classes.add("pool-latent:" + str(self.latent_prior))
+        s = self.samples
+        check_rows(s, name)
+        check_indices(self, name)
+        if s.size != N:
+            V(f"pool-size!=requested:{name}", f"{s.size} vs requested {N}")
+        if getattr(self, "population_acceptance", 1.0) is not None and \
+                self.population_acceptance < 1.0:
+            mon.classes.add("pool:acceptance<1")
+        # radially truncated latent priors: nothing outside the contour
+        if self.latent_prior in ("truncated_gaussian", "uniform_nsphere",
+                                 "uniform_nball") and s.size:
+            rep = repr(getattr(self, "reparameterisations", None)).lower() \
+                + " ".join(type(r).__name__.lower() + str(getattr(
+                    r, "boundary_inversion", "")) for r in getattr(
+                        self._reparameterisation, "values", lambda: [])())
+            stochastic = any(w in rep for w in ("angle", "cartesian")) or \
+                "true" in rep or "[" in rep and "inversion" in rep or \
+                getattr(self, "augment_dims", 0)
+            if not stochastic:
+                state = np.random.get_state()
+                try:
+                    z = self.forward_pass(s, rescale=True,
+                                          compute_radius=False)[0]
+                finally:
+                    np.random.set_state(state)
+                rad = np.sqrt(np.sum(np.asarray(z, float) ** 2, axis=1))
+                lim = self.r * self.fuzz
+                slack = 1e-3 * max(1.0, lim) + 1e-3
+                bad = rad > lim + slack
+                mon.count("pool.radius_checks")
+                if bad.any():
+                    V(f"pool-point-outside-latent-contour:{name}",
+                      f"{int(bad.sum())} of {s.size}: max radius "
+                      f"{rad.max():.4f} > r*fuzz {lim:.4f}")
+
+    wrap(FlowProposal, "populate", before_flow, after_flow)
+
+    # --- every draw hands out the row its index points to, once
+    def before_draw(self, *a, **k):
+        return (self.populated, list(self.indices[-1:]),
+                None if self.samples is None else self.samples)
+
+    def after_draw(self, tok, result):
+        populated, last, samples = tok
+        mon.count("pool.draws")
+        if populated and last and samples is not None:
+            if result.tobytes() != samples[last[0]].tobytes():
+                mon.violation("draw-returned-wrong-pool-row:" +
+                              type(self).__name__, "")
+            if last[0] in self.indices:
+                mon.violation("pool-index-handed-out-twice:" +
+                              type(self).__name__, "")
+
+    wrap(AnalyticProposal, "draw", before_draw, after_draw)
+    wrap(FlowProposal, "draw", before_draw, after_draw)
+
+    # --- importance sampler draws
+    def before_ifp(self, n, *a, **k):
+        return n
+
+    def after_ifp(self, n, result):
+        samples, log_q = result
+        V = mon.violation
+        mon.count("pool.populations")
+        mon.classes.add("pool:ImportanceFlowProposal")
+        if samples.size != n or log_q.shape[0] != n:
+            V("pool-size!=requested:ImportanceFlowProposal",
+              f"{samples.size} vs {n}")
+        x = np.asarray(model.unstructured_view(samples), float)
+        if np.any(x < 0) or np.any(x > 1):
+            V("pool-point-out-of-bounds:ImportanceFlowProposal", "")
+        phys = model.from_unit_hypercube(samples)
+        with model.quiet():
+            lp = np.asarray(model.log_prior(phys), dtype=float)
+        mon.count("pool.rows", int(samples.size))
+        if not np.all(np.isfinite(lp)):
+            V("pool-point-outside-prior-support:ImportanceFlowProposal",
+              f"{int((~np.isfinite(lp)).sum())} of {samples.size}")
+        stored = np.asarray(samples["logP"], float)
+        ulps = 0 if getattr(model, "exact", True) else 4
+        with np.errstate(invalid="ignore"):
+            ok = (stored == lp) | (
+                np.abs(stored - lp) <= ulps * np.spacing(np.abs(lp)))
+        if not ok.all():
+            V("pool-logP!=model:ImportanceFlowProposal",
+              f"{int((~ok).sum())} of {samples.size}")
+
+    wrap(ImportanceFlowProposal, "draw", before_ifp, after_ifp)
+
+
+INSTALLERS["pool"] = install_pool
+
+
+def _post_support(mon, fs, job):
+    """C09 part C: every point the user's likelihood was called on lies in
+    the prior support (bounds + finite log-prior)."""
+    model = mon.model
+    log = model.call_log or []
+    n = 0
+    bad_b = bad_p = 0
+    for x in log:
+        n += x.size
+        inb = model.in_bounds(x)
+        bad_b += int((~inb).sum())
+        with model.quiet():
+            lp = np.asarray(model.log_prior(x), dtype=float)
+        bad_p += int((~np.isfinite(lp)).sum())
+    mon.count("support.points", n)
+    mon.count("support.calls", len(log))
+    if bad_b:
+        mon.violation("likelihood-called-outside-bounds",
+                      f"{bad_b} of {n} points")
+    if bad_p:
+        mon.violation("likelihood-called-outside-prior-support",
+                      f"{bad_p} of {n} points have log-prior -inf/NaN")
+
+
+POST["support"] = _post_support
